@@ -132,8 +132,9 @@ def run(ctx):
 
 # ---------------------------------------------------------------------------------- periodic pair chain
 
+# omega: two Wyckoff positions on the vacancy sublattice WITHOUT origin states (solute site energies differ)
 CHAIN_WORLDS_QUICK = [("fcc", 0, 1, 1), ("square", 0, 1, 1), ("honeycomb", 0, 1, 1), ("wurtzite", 0, 2, 1),
-                      ("polarrect", 1, 2, 1), ("bcc", 0, 1, 1)]
+                      ("polarrect", 1, 2, 1), ("bcc", 0, 1, 1), ("omega", 0, 1, 1)]
 CHAIN_WORLDS_MORE = [("hcp", 0, 2, 1), ("hex2d", 0, 1, 1), ("b2", 0, 1, 1), ("sc", 0, 1, 1), ("diamond", 0, 1, 1),
                      ("rect2site", 0, 2, 1), ("tet2", 0, 2, 1), ("square", 0, 1, 2), ("hex2d", 0, 1, 2),
                      ("fcc", 0, 1, 2), ("wurtzite", 0, 1, 1), ("polarrect", 1, 2, 2), ("sqpolar", 1, 1, 1)]
